@@ -20,8 +20,12 @@ describe(
     "compared key) together with a skeleton comparison; the guard of the contraction step in Independencies.closure is exactly "
     "the axiom's precondition (decided by exhaustive valuation of the 2^7 Venn-region occupancies of the three sets involved), "
     "decomposition / weak union produce the axioms' shapes, both sides are tried, and the closure loop is a fixed point over "
-    "new x all pairs; IndependenceAssertion equality and hash agree on the symmetry they accept.",
-    ["numeric independence checks on joint tables (tolerances)", "minimality of I-maps", "termination/complexity of closure"],
+    "new x all pairs, and decomposition / weak union are APPLIED to every assertion whose second event has several variables (path "
+    "condition compared as a formula); IndependenceAssertion equality and hash agree on the symmetry they accept; independence "
+    "queries on a joint table never edit the table; minimal_imap has an edge-adding path that does not depend on a positive "
+    "independence test (a variable depending on all its predecessors gets all of them as parents) and asks X ⟂ pred∖S | S.",
+    ["numeric independence checks on joint tables (tolerances)", "minimality of I-maps", "termination/complexity of closure",
+     "independence of a variable from a SET of variables (check_independence tests pairs)"],
 )
 
 
